@@ -445,7 +445,8 @@ fn exec(
     Some(Outcome {
         key,
         observed,
-    })
+        enabled: None,
+        })
 }
 
 fn run(ctx: &Ctx, report: &mut Report) {
